@@ -126,6 +126,26 @@ class SStr:
         self.segs = out
         self.isbytes = isbytes
 
+    def _key(self):
+        out = []
+        for s in self.segs:
+            if isinstance(s, str):
+                out.append(s)
+            elif isinstance(s, NameAtom):
+                out.append(("name", id(s.op)))
+            elif isinstance(s, IntAtom):
+                out.append(("int", to_z3(s.term).sexpr()))
+            else:
+                out.append(("float", to_real(s.term).sexpr(), s.fmt))
+        return (tuple(out), self.isbytes)
+
+    def __hash__(self):
+        return hash(self._key())
+
+    def __eq__(self, o):
+        # python-level (dict key) equality: structural identity; symbolic equality goes through str_eq
+        return isinstance(o, SStr) and self._key() == o._key()
+
     def is_lit(self):
         return all(isinstance(s, str) for s in self.segs)
 
@@ -468,6 +488,8 @@ def str_eq(ex, a, b):
                 if isinstance(nxt, Atom):
                     raise Unsupported("adjacent atoms in string equality")
                 continue
+            if isinstance(atom, NameAtom) and atom.op.attrs.get("distinct_from_literals"):
+                return False      # stated assumption: such names differ from every literal the program compares them with
             raise Unsupported("equality of an opaque atom with literal text")
     if A or Bs:
         rest = A or Bs
